@@ -57,6 +57,15 @@ MISSED = {
              "inconclusive, not a violation; concrete-table instances with arbitrary masks added, and undecided instances are "
              "now probed concretely (12.1)",
     "C17-9": "every path built one object per class; `two_objects` added",
+    "C14-11": "no task re-armed itself from inside its callback; `self_rearm` added",
+    "C14-12": "`resume` was only applied to suspended tasks; resume of a pending task (a re-installation) admitted in `sched_ops`",
+    "C13-11": "at most one foreign device was ever removed from a table of one; `foreign_trio` added",
+    "C12-10": "C12 ran loss-free only; C05's lossy scenario with unequal windows now runs under C12 too",
+    "C12-11": "no device ever moved to another address; `cache_moves` (three I-Am announcements, two devices, two addresses) added",
+    "C12-12": "any abort satisfied the outcome oracle; when the SERVER cannot comply the abort must come from the server, on the wire",
+    "C06-10": "the step router had the same MAC on every port; it now has a different one per network",
+    "C10-10": "the device under test did not support DeviceCommunicationControl; `dcc_values` added",
+    "C10-12": "the seed's own trigger was closed by fix e0cdb7d (demo rebased); quiescence had no time bound: `half_open` added",
     "C10-5": "no frame carried a source network; `routed_noise` (garbage claiming a remote source, then a relayed valid request) added",
 }
 
